@@ -124,6 +124,7 @@ def baseOpOfJson (o : Json) : Op :=
   match jstr (jget o "op") with
   | "alloc" => .alloc (jint (jget o "k")) (reqOfJson (jget o "req"))
   | "drop" => .drop ((jarr (jget o "idx")).map jnat)
+  | "readd" => .readd (wOfJson (jget o "w"))
   | "realloc" => .realloc (jnat (jget o "i")) (reqOfJson (jget o "req"))
   | _ => .rollbackRealloc
 
@@ -156,6 +157,7 @@ def stepC08 (st : St08) (oi : Json × Json) : St08 :=
     match op with
     | .alloc _ _ => (st.implLive ++ ws, none)
     | .drop idxs => (removeIdxs st.implLive idxs, none)
+    | .readd w => (st.implLive ++ [w], none)
     | .realloc i _ => (st.implLive.set i newW, some ⟨i, st.implLive.getD i {}, delta⟩)
     | .rollbackRealloc => match st.implUndo with
       | some u => (st.implLive.set u.idx u.origin, none)
@@ -192,7 +194,7 @@ def handleC08 (j : Json) : Json :=
     let numa := if capacity.numa.length > 0 then "numa" else "flat"
     let has (p : String) : Bool := st.kinds.any (·.startsWith p)
     let feats := (if has "realloc-bound" || has "realloc-unbound" then ":realloc" else "") ++
-      (if st.kinds.any (· == "rbrealloc") then ":rb" else "") ++ (if has "otherfail-" then ":otherfail" else "") ++ (if st.kinds.any (·.endsWith "-numa") then ":numamem" else "")
+      (if st.kinds.any (· == "rbrealloc") then ":rb" else "") ++ (if st.kinds.any (· == "readd") then ":readd" else "") ++ (if has "otherfail-" then ":otherfail" else "") ++ (if st.kinds.any (·.endsWith "-numa") then ":numamem" else "")
     verdict id agree (Json.mkObj [("usage", nodeResToJson st.s.node.usage), ("live", Json.arr (st.s.live.map wToJson).toArray)])
       st.spec (s!"hist-{numa}" ++ feats) (st.okOps == 0)
 
@@ -313,9 +315,15 @@ def handleC32 (j : Json) : Json :=
     let out := (jobjList (jget impl "out")).map fun (k, e) => (k, engineOfJson e)
     let agree := jstr (jget impl "seterr") == "" && jstr (jget impl "err") == "" && m.length == out.length &&
       m.all fun (k, e) => match out.find? (·.1 == k) with | some (_, x) => engineSame e x | none => false
-    let spec := if remapOkB n shareBase ws out then [] else ["C32:remap"]
+    -- cluster stream: the engine parameters held by bound workloads are their own cores (untouched by remap)
+    let bound := (jobjList (jget impl "bound")).map fun (k, e) => (k, engineOfJson e)
+    let vBound := if bound.all (fun (k, e) => match ws.find? (·.1 == k) with
+        | some (_, w) => mapSame e.cpuMap w.cpuMap && !e.remap
+        | none => false) then [] else ["C32:bound-touched"]
+    let spec := (if remapOkB n shareBase ws out then [] else ["C32:remap"]) ++ vBound
     let nfree := (freeCores n shareBase).length
-    let cls := (if ws.isEmpty then "empty" else if m.isEmpty then "all-bound" else if m.length == ws.length then "all-unbound" else "mixed") ++
+    let pre := (if jstr (jget j "cluster") != "" then "cluster-" ++ jstr (jget j "cluster") ++ ":" else "") ++ (if jbool (jget j "multi") then "multi:" else "")
+    let cls := pre ++ (if ws.isEmpty then "empty" else if m.isEmpty then "all-bound" else if m.length == ws.length then "all-unbound" else "mixed") ++
       (if nfree == 0 then ":no-free-core" else if nfree == n.capacity.cpuMap.length then ":all-free" else ":some-free")
     verdict id agree (Json.mkObj (m.map fun (k, e) => (k, mapToJson e.cpuMap))) spec cls (ws.isEmpty)
 
